@@ -71,7 +71,7 @@ def run(ck: Check):
             configs.append(((arg, w["id"]), v, knobs))
             if knobs is None and not arg.startswith("bigger"):
                 lemma_pairs.append((w, v))
-    superset_lemma(ck, lemma_pairs[: (3 if not thorough else 10)])
+    superset_lemma(ck, sorted(lemma_pairs, key=lambda bv: sum(bv[0]["bound"].values()))[: (2 if not thorough else 10)])
     obs = cc.observe(ck, configs)
     traces, cfg_by_step = [], {}
     for w in worlds:
